@@ -5,6 +5,101 @@ import os
 VERIF = os.path.dirname(os.path.dirname(os.path.abspath(__file__)))
 
 CLAIMED = {
+    "C02": ("6/C02", "Theorems (Lean 4): int + - * of the code model are exact for all ints; int / equals Int.tdiv with |a - q*b| < |b| and the remainder 0 or "
+            "of the sign of a (int_div_trunc, tdiv_unique); int % equals Int.fmod with |r| < |b| and b | a - r; arithmetic on NULL gives NULL; the result "
+            "is an int exactly when both operands are ints (arith_kind); and/or evaluate clauses left to right, stop at the deciding one and accept only "
+            "booleans (and_or_short_circuit); and, over the predicate table REGENERATED from parse_pred_expr on every run, every `x is not P` arm "
+            "builds NodeNot of exactly the node of `x is P` (is_not_is_negation). Precedence/associativity/chain desugaring live in the parser model "
+            "(fuel-free, compared AST-for-AST with the implementation in C01). Tied to the code by random expression trees to depth 5, all ordered "
+            "operator pairs, expected ASTs computed from the precedence rules, values recomputed with exact int/Fraction arithmetic.",
+            "No theorem `parse (pretty e) = e` yet: precedence is pinned by the expected-AST oracle and the parser correspondence, not by proof. "
+            "Decimal arithmetic uses machine doubles on both sides (no theorem about float arithmetic)."),
+    "C03": ("6/C03", "Theorems (Lean 4, evaluator model): environment algebra (lookup_put_same/other, set_updates_nearest, set_undefined_none: assignment "
+            "never creates a binding, newEnv_fresh); a closure call runs in a fresh child of the CAPTURED frame and is independent of the caller's frame "
+            "(call_ignores_caller_env, call_fresh_frame); setArgs computes exactly the declarative binding relation - named first, positionals to the "
+            "remaining parameters in order, surplus to the rest parameter, the three error cases (setArgs_spec and corollaries); defaults are "
+            "evaluated in the callee frame in declaration order (bindParams_default). Tied to the code by generated programs (closures, shadowing to 4 "
+            "levels, recursion, positional/named/default/rest/spread/pipeline/method calls) run three ways: implementation, a reference interpreter "
+            "written from the language rules, and the Lean evaluator.",
+            "Pipeline / method-call desugaring is in the parser and evaluator models and covered by correspondence, not by a separate theorem."),
+    "C04": ("6/C04", "Theorems (Lean 4, evaluator model): for/while never return a break or continue value (loop_absorbs_break_continue), a block stops at the "
+            "first control value and returns it unchanged (block_propagates_signal), a call unwraps return and turns a stray break/continue into a "
+            "runtime error (call_unwraps_return, call_break_is_error), if evaluates exactly the first TRUE branch (if_first_true, if_all_false), while "
+            "re-tests its condition (while_retests), and `for` over a set / map enumerates the same sorted items a comprehension gets "
+            "(for_set_sorted, compr_same_items, for_map_keys/values/entries). Tied to the code by generated loop nests with exits at every statement "
+            "position run on implementation, reference interpreter and model.",
+            "Known finding C04:default-what-mismatch: over a map/object WITHOUT keys/values/entries the comprehension default differs from the loop default "
+            "(theorem default_selector_differs); generators always give the selector."),
+    "C05": ("6/C05", "Theorems (Lean 4, evaluator model, all programs/states/fuel): finally_exactly_once - for every one of the 30 mutually recursive evaluator "
+            "functions, whenever evaluation ends with a value, a runtime error, a syntax failure or a host failure, every block entered had its finally "
+            "part run exactly once (ghost counters per block position, for every interpretation of the unmodelled built-ins that is itself balanced); "
+            "seq_abort (nothing after the failing statement runs), catch_first_match / catch_all_handles / catch_no_match_unchanged (error value, "
+            "message, position unchanged when re-raised), finally_runs_on_error, error_raises_value, uncaught_error_reaches_interpret. Tied to the code "
+            "by generated do/catch/finally nests with injected user and runtime errors run on implementation, reference interpreter and model "
+            "(incl. a runtime cross-check of the ghost counters).",
+            "Out-of-fuel and unsupported outcomes of the model are exempt from the theorem."),
+    "C08": ("6/C08", "Theorems (Lean 4): equal sets/maps built in any insertion order render identically (render_set_perm, render_map_perm via sorted-permutation "
+            "uniqueness); an int renders as an integer numeral without '.', a decimal (for the model's decRepr) with one, so their texts never coincide; "
+            "every string literal `'` ++ escape s ++ `'` scans back to exactly the string token s in any context (string_token_roundtrip), every int "
+            "numeral to its int token (negative: `-` then the numeral) and through the parser to the literal (roundtrip_int, <= 4300 digits), booleans, "
+            "NULL, patterns without '/', and arbitrarily nested lists of these parse back to their literal AST (roundtrip_data). Tied to the code by "
+            "generated data values to depth 3 (adversarial strings, all float binades by bit pattern): str(v) evaluates to an equal value of the same "
+            "type that renders to the same text; model render (incl. shortest-repr decRepr) = implementation text.",
+            "PARTIAL: decimals round-trip under two stated hypotheses about decRepr/parseDecimal (roundtrip_dec_partial); sets, maps and the evaluation "
+            "step of the round trip are covered by the oracle/correspondence only. Known findings: equal ints/decimals as set elements, -0.0, patterns "
+            "containing '//', NULL as a map key."),
+    "C10": ("6/C10", "Theorems (Lean 4, evaluator + session model): modstack_preserved - every evaluator function leaves the module load stack as it found it on "
+            "every exit (value, runtime error, syntax failure, host failure); hence after ANY session of interpret calls the stack is empty again "
+            "(modstack_empty_between_calls) and a failed require can never make a later one report a circular dependency "
+            "(no_stale_circular_dependency); an aborted for loop leaves no loop variable behind (for_cleanup_on_error); seq_abort of C05 gives "
+            "'definitions made before the failure point persist'. Tied to the code by exhaustive command histories up to length 3 (thorough 4) and "
+            "random ones to length 30 over define/assign/read/call/failing expression/syntax error/require of good, missing, broken, failing, "
+            "circular, dependent modules/aborted loop, with an erasure oracle (failed calls replaced by their completed prefix), a repetition oracle, "
+            "two interleaved interpreters, and the model session.",
+            "Instance separation (two interpreters never share state) is checked by the interleaving oracle, not by a theorem (two model sessions are "
+            "independent values by construction)."),
+    "C11": ("6/C11", "Theorems (Lean 4, evaluator model): module_evaluated_at_most_once - the counter of completed top-level evaluations of every module identifier "
+            "is 1 exactly when the module is cached and 0 otherwise, through every evaluator function and every session started from the initial state "
+            "(session_modules_at_most_once); a cached module is never re-evaluated or replaced, so all importers share the one frame "
+            "(cached_module_is_kept, cached_module_not_reevaluated); the cycle check makes the invariant inductive. Tied to the code by generated "
+            "module graphs (2..5 modules, public/private definitions, load messages, mutable state, cyclic and acyclic) x importer programs with every "
+            "import form: importer symbol tables before/after, module object members, load counts, shared state, importer isolation, cycles; and the "
+            "model session on the same histories.",
+            "The 'binds exactly these names' part is covered by the oracle and the model correspondence (symbol tables are compared), not by a "
+            "separate theorem. At-most-once is per module identifier spelling."),
+    "C12": ("6/C12", "Theorems (Lean 4, evaluator model): the storage order of a set / map cell (CPython's hash order) is unobservable - for two states that "
+            "differ only by a permutation of one cell's content (elements pairwise of one ordered kind and distinct): sorted enumeration "
+            "(sortedR_perm, sortedEntriesR_perm), reification, equality, order, rendering (reify_perm, rveq_perm, rvlt_perm, rrender_perm), membership, "
+            "comprehension / spread / destructuring / list() / for-loop item lists (collectionValues_perm, spreadValues_perm, destructure_perm, "
+            "asListArg_perm, evalFor_items_perm*) and set construction (addSet_perm) agree. Tied to the code by generated programs through every "
+            "enumeration path and library function, each run in fresh processes under 8 (thorough 32) PYTHONHASHSEED values, and compared with the "
+            "hash-free model.",
+            "CPython's hash randomisation is abstracted to 'any permutation'. Known finding C12:date-number-mix (theorem totalOn_necessary): sets mixing "
+            "dates with numbers enumerate seed-dependently. Whole-program simulation under permutation is not proved, only the enumeration primitives."),
+    "C16": ("6/C16", "Theorems (Lean 4, evaluator model): every modelled built-in other than append/insert_at/delete_at/remove/put leaves every pre-existing heap "
+            "cell unchanged on every outcome (callPure_nonmutating); each mutator changes exactly its target cell, to the textbook result "
+            "(mutator_frame, append_list, insert_at_list, delete_at_list, put_map, remove_*); containers returned by non-mutating built-ins are fresh "
+            "cells, with the explicit exceptions that return their argument (result_fresh, returns_argument_*); all holders of a reference see a "
+            "mutation (alias_visibility); element/member assignment changes only the addressed cell; literals, slices and comprehensions only "
+            "allocate. Tied to the code by snapshotting (structure + identities) all arguments of every function of the base environment and bundled "
+            "modules over a 20-value pool, and by random alias programs checked against a reference heap and the model.",
+            "Library functions written in the language (permutations, unique, ...) are covered by the snapshot oracle, not by theorems."),
+    "C18": ("6/C18", "Theorems (Lean 4, all strings): contains <-> find >= 0 <-> infix, `in` = contains, starts_with/ends_with = prefix/suffix; join = intercalate, "
+            "join(split(s, sep), sep) = s for every s and sep, split(join(xs, sep), sep) = xs exactly under the stated JoinClean condition (iff, with a "
+            "counterexample otherwise), split through escape_pattern is the literal split; replace (the recursive string.ckl algorithm, fuel proved "
+            "sufficient) = left-to-right non-overlapping substitution; reverse involutive, trim idempotent with its spec, ASCII case maps idempotent, "
+            "chr/ord inverse, length additive; s-interpolation replaces each placeholder by its rendered, padded value and leaves other text unchanged "
+            "(interp_spec, pad_*). Tied to the code by exhaustive small pairs and adversarial random strings against host string operations, laws "
+            "between functions, and the model.",
+            "Regular expressions, non-ASCII case mapping and `.digits` rounding are not modelled (the model abstains there; the oracle still checks)."),
+    "C19": ("6/C19", "Theorems (Lean 4): union/intersection/diff/symmetric_diff are the set-theoretic operations w.r.t. equality-membership and duplicate-free; "
+            "unique keeps the first of each key class; reverse/flatten/zip/enumerate/range/interval/chunks/pairs/grouped/filter/map_list/reduce/sum/prod "
+            "equal their textbook definitions (chunks flatten to the input, sizes k..k,1..k); mean/median/median_low/median_high/min/max are "
+            "invariant under permutation; pow = a^n, gcd = Int.gcd, lcm = Int.lcm, truncating div and floored mod with their characterisations; the "
+            "32-bit functions equal the BitVec 32 operations (and/or/xor/not, rotations for every int a and n), shifts = a*2^n and floor(a/2^n). "
+            "Tied to the code by random collections with duplicates and 1/1.0, all permutations of short lists, ints to 2^80, all 32-bit boundary "
+            "words x shift counts, against defining laws and the model.",
+            "Decimal sums/means are compared as doubles (no float theorem)."),
     "C09": ("6/C09", "Theorems (Lean 4) over the native table that is REGENERATED from functions.py / interpreter.py / modules/*.ckl on every run: every "
             "built-in whose class references an OS primitive (open, os.*, shutil.*, subprocess.*, FileInput, FileOutput, script loading) is "
             "flagged secure=False (table_sound); every instantiation of such a class outside bind_native is guarded by `not secure` "
